@@ -25,12 +25,13 @@ class _Abort(BaseException):
 
 
 class LProc(object):
-    def __init__(self, world, pid, kind, root, ntry):
+    def __init__(self, world, pid, kind, root, ntry, path=(0,)):
         self.world = world
         self.pid = pid
         self.kind = kind
         self.root = root
         self.ntry = ntry
+        self.path = list(path)       # indices of the stacks this process locks, in order (its EUPS_PATH)
         self.environ = {}
         if root is not None:
             self.environ["EUPS_LOCK_PID"] = "%d" % root
@@ -47,7 +48,7 @@ class LProc(object):
         w = self.world
         try:
             lt = w.lock.LOCK_EX if self.kind == "E" else w.lock.LOCK_SH
-            locks = w.lock.takeLocks("verif", [w.stack], lt, ntry=self.ntry, verbose=0)
+            locks = w.lock.takeLocks("verif", [w.stacks[k] for k in self.path], lt, ntry=self.ntry, verbose=0)
             self.park("hold")        # between the return of takeLocks and the call of giveLocks
             w.lock.giveLocks(locks, 0)
             self.op = "done"
@@ -63,8 +64,10 @@ class LProc(object):
 
     def park(self, op):
         """announce the next call, pass the baton as the schedule says, return when it is our turn"""
-        self.op = op
         w = self.world
+        if w.abort:                  # being torn down (giveLocks called while unwinding): do nothing more
+            raise _Abort()
+        self.op = op
         if w.running:
             w.handover(self)
         else:                        # start-up: run to the first call, then wait for the schedule to begin
@@ -86,11 +89,11 @@ class _PathProxy(object):
     isabs = staticmethod(os.path.isabs)
 
     def exists(self, p):
-        _me().park("exists" if p == self._w.lockdir else "existsf")
+        _me().park(("exists" if p in self._w.lockdirs else "existsf") + self._w.at(p))
         return os.path.exists(p)
 
     def isdir(self, p):
-        _me().park("isdir")
+        _me().park("isdir" + self._w.at(p))
         return os.path.isdir(p)
 
 
@@ -119,26 +122,26 @@ class _OsProxy(object):
         os.close(fd)
 
     def mkdir(self, p):
-        _me().park("mkdir")
+        _me().park("mkdir" + self._w.at(p))
         os.mkdir(p)
 
     def open(self, p, flags):
-        _me().park("open")
+        _me().park("open" + self._w.at(p))
         fd = os.open(p, flags)
         self._w.seq += 1
         self._w.created[p] = self._w.seq
         return fd
 
     def remove(self, p):
-        _me().park("remove")
+        _me().park("remove" + self._w.at(p))
         os.remove(p)
 
     def rmdir(self, p):
-        _me().park("rmdir")
+        _me().park("rmdir" + self._w.at(p))
         os.rmdir(p)
 
     def walk(self, p):
-        _me().park("walk")
+        _me().park("walk" + self._w.at(p))
         return os.walk(p)
 
 
@@ -150,7 +153,7 @@ class _GlobProxy(object):
         import glob as real
         me = _me()
         base = os.path.basename(pattern)
-        me.park("glob*" if base == "*" else "globx" if base == "exclusive*" else "glob?" + base)
+        me.park(("glob*" if base == "*" else "globx" if base == "exclusive*" else "glob?" + base) + self._w.at(pattern))
         res = real.glob(pattern)
         res.sort(key=lambda f: -self._w.created.get(f, 0))       # creation order, newest first
         if res:
@@ -170,8 +173,7 @@ class World(object):
     def __init__(self, lockmod, base):
         self.lock = lockmod
         self.base = base
-        self.stack = os.path.join(base, "stack")
-        self.lockdir = os.path.join(self.stack, lockmod._lockDir)
+        self.set_stacks(1)
         self.back = threading.Lock()     # binary semaphore the other way round (hand-offs strictly alternate)
         self.back.acquire()
         self.abort = False
@@ -180,23 +182,36 @@ class World(object):
         self.created = {}
         self.procs = {}
 
+    def set_stacks(self, n):
+        self.stacks = [os.path.join(self.base, "stack" if k == 0 else "stack%d" % k) for k in range(n)]
+        self.lockdirs = [os.path.join(d, self.lock._lockDir) for d in self.stacks]
+
+    def at(self, path):
+        """suffix naming the stack a path lies in: nothing for stack 0, @k for stack k"""
+        for k, d in enumerate(self.lockdirs):
+            if path == d or path.startswith(d + os.sep):
+                return "" if k == 0 else "@%d" % k
+        raise AssertionError("eups.lock touches %s, outside every lock directory" % path)
+
     def install(self):
         self.lock.os = _OsProxy(self)
         self.lock.glob = _GlobProxy(self)
         self.lock.time = _TimeProxy()
 
-    def reset(self, procs):
-        if os.path.isdir(self.lockdir):
-            shutil.rmtree(self.lockdir)
-        if not os.path.isdir(self.stack):
-            os.makedirs(self.stack)
+    def reset(self, procs, nstacks=1):
+        self.set_stacks(nstacks)
+        for d, ld in zip(self.stacks, self.lockdirs):
+            if os.path.isdir(ld):
+                shutil.rmtree(ld)
+            if not os.path.isdir(d):
+                os.makedirs(d)
         self.abort = False
         self.running = False
         self.seq = 0
         self.created = {}
         self.procs = {}
         for p in procs:
-            lp = LProc(self, p["pid"], p["kind"], p.get("root"), p.get("ntry", 2))
+            lp = LProc(self, p["pid"], p["kind"], p.get("root"), p.get("ntry", 2), p.get("path") or [0])
             self.procs[lp.pid] = lp
         for pid in sorted(self.procs):
             self.procs[pid].thread.start()
@@ -267,14 +282,19 @@ class World(object):
             raise _Abort()
 
     def observe(self):
-        files = []
-        d = os.path.isdir(self.lockdir)
-        if d:
-            for f in os.listdir(self.lockdir):
-                m = re.match(r"^(exclusive|shared)-(.+)\.(\d+)$", f)
-                files.append(("E" if m.group(1) == "exclusive" else "S") + m.group(3) if m else "?" + f)
-        files.sort(key=lambda x: (int(x[1:]) if x[1:].isdigit() else -1, x))
-        return "%s|%s|%s" % ("D" if d else "-", ",".join(files),
+        """D or - per stack | lock files per stack (stacks separated by /) | pid:next call (with @k for stack k > 0)"""
+        ds, fl = [], []
+        for ld in self.lockdirs:
+            files = []
+            d = os.path.isdir(ld)
+            if d:
+                for f in os.listdir(ld):
+                    m = re.match(r"^(exclusive|shared)-(.+)\.(\d+)$", f)
+                    files.append(("E" if m.group(1) == "exclusive" else "S") + m.group(3) if m else "?" + f)
+            files.sort(key=lambda x: (int(x[1:]) if x[1:].isdigit() else -1, x))
+            ds.append("D" if d else "-")
+            fl.append(",".join(files))
+        return "%s|%s|%s" % ("".join(ds), "/".join(fl),
                              ",".join("%d:%s" % (pid, self.procs[pid].op) for pid in sorted(self.procs)))
 
     def finished(self):
@@ -313,7 +333,7 @@ def run_cases(cases, drain_limit=400):
         w = World(lock, base)
         w.install()
         for c in cases:
-            w.reset(c["procs"])
+            w.reset(c["procs"], int(c.get("stacks", 1)))
             eff, trace = w.run_schedule(norm_schedule(c["schedule"]), bool(c.get("drain")), drain_limit)
             detail = {str(pid): lp.detail for pid, lp in w.procs.items() if lp.detail}
             w.teardown()
